@@ -31,6 +31,9 @@ pub(crate) enum Phase {
     Move(usize, usize, u64),
     /// process restart (the world grows by one block)
     Restart,
+    /// the client goes down, every peer moves to (chain, height) meanwhile, the client restarts:
+    /// no prove state is left, the first request starts from the stored tip of the old branch
+    SwitchWhileDown(usize, u64),
 }
 
 pub(crate) struct HonestScenario<'a> {
@@ -120,6 +123,15 @@ impl<'a> Scenario for HonestScenario<'a> {
             }
             Phase::Move(id, chain, h) => sim.set_view(*id, *chain, *h, true),
             Phase::Restart => explore::restart_all(sim),
+            Phase::SwitchWhileDown(chain, h) => {
+                let (chain, h) = (*chain, *h);
+                explore::restart_all_pre(sim, &|s: &mut Sim| {
+                    let ids: Vec<usize> = s.world.peers.iter().map(|p| p.id).collect();
+                    for id in ids {
+                        s.set_view(id, chain, h, false);
+                    }
+                })
+            }
         }
         true
     }
@@ -207,7 +219,11 @@ pub(crate) fn tip_check(sim: &Sim) -> Vec<(String, String)> {
         let tip = sim.c().storage.get_tip_header();
         let (stored_td, _) = sim.c().storage.get_last_state();
         // a chain of length 0 (only genesis) has nothing to prove
-        if height > 0 && tip.calc_header_hash() != hash {
+        if height > 0 && tip.calc_header_hash() != hash && stored_td == td {
+            // a tie: the stored tip weighs exactly as much as the heaviest announced one (e.g. the
+            // old branch grew while the peers moved to a sibling of equal difficulty); the tip only
+            // moves to a strictly heavier header (C12), so either of the two is "the heaviest"
+        } else if height > 0 && tip.calc_header_hash() != hash {
             bad.push((
                 "tip-not-heaviest".into(),
                 format!(
@@ -412,6 +428,25 @@ pub(crate) fn items(thorough: bool) -> Vec<Item> {
             mmr_epoch: 0,
             with_scripts: false,
             seeds: seeds_small.clone(),
+            bound: bound_small,
+            ahead: 0,
+        });
+    }
+    // the chain reorganises (within last-N) while the client is down: after the restart there is no
+    // prove state, the request starts from the stored tip of the old branch, the server answers with
+    // reorg headers and fewer than / exactly / more than last-N new headers
+    for (name, fork_at, to) in [("fork-while-down/depth1/+1", 19u64, 21u64), ("fork-while-down/depth1/+2", 19, 22), ("fork-while-down/depth2/+2", 18, 22), ("fork-while-down/depth1/+3", 19, 23), ("fork-while-down/depth2/+6", 18, 26)] {
+        v.push(Item {
+            name: name.into(),
+            chain_len: 20,
+            plan: plan(5, &[16, 24, 36, 24, 16, 24]),
+            fork: Some((fork_at, 26)),
+            peers: vec![(1, 0, 20), (2, 0, 20)],
+            phases: if to < 26 { vec![Phase::SwitchWhileDown(1, to), Phase::Move(1, 1, 26), Phase::Move(2, 1, 26)] } else { vec![Phase::SwitchWhileDown(1, to)] },
+            last_n: n,
+            mmr_epoch: 0,
+            with_scripts: true,
+            seeds: vec![1],
             bound: bound_small,
             ahead: 0,
         });
